@@ -558,6 +558,40 @@ func checkTransferLegs(cx *CheckCtx, tc *transferCall, key string) {
 			}
 		}
 	}
+	// ---- both legs are executed exactly for account addresses: a success exit has credited a
+	// 20-byte `to` and debited a 20-byte `from` (a transfer of 0 may leave the sender alone), and
+	// the stores happen only for 20-byte addresses
+	{
+		okLegs, whereLegs := true, w.pos(tc.m.Fn.Pos())
+		lenFrom, lenTo := a.litLen(tc.from), a.litLen(tc.to)
+		for _, ex := range a.Exits() {
+			if len(ex.Results) != 1 {
+				continue
+			}
+			if bv, isC := ex.Results[0].BoolConst(); isC && !bv {
+				continue
+			}
+			nb := []int32{}
+			if _, isC := ex.Results[0].BoolConst(); !isC {
+				nb = append(nb, -a.litB(ex.Results[0]))
+			}
+			if tc.creditPut == nil || !a.holdsAt(ex.State, append(nb, a.eLit(tc.creditPut), -a.litEqC(lenTo, 20))...) {
+				okLegs, whereLegs = false, exitPos(w, ex)
+			}
+			if tc.debitPut == nil || tc.debitDel == nil || !a.holdsAt(ex.State, append(nb, a.eLit(tc.debitPut), a.eLit(tc.debitDel), -a.litEqC(lenFrom, 20), a.litEqC(tc.amt, 0))...) {
+				okLegs, whereLegs = false, exitPos(w, ex)
+			}
+		}
+		if tc.creditPut != nil && !a.holdsAt(tc.creditPut.In, a.litEqC(lenTo, 20)) {
+			okLegs, whereLegs = false, tc.creditPut.Where(w)
+		}
+		for _, d := range []*Site{tc.debitPut, tc.debitDel} {
+			if d != nil && !a.holdsAt(d.In, a.litEqC(lenFrom, 20)) {
+				okLegs, whereLegs = false, d.Where(w)
+			}
+		}
+		cx.decide(okLegs, "legs-executed", key, "a successful transfer has credited a 20-byte receiver and debited a 20-byte sender, and only those", "a transfer can report success with a leg skipped for an account address (or executed for a non-account one): Σ balances ≠ supply", whereLegs)
+	}
 	// ---- notifications and refusal, on the exits of Token.transfer itself
 	where := w.pos(tc.m.Fn.Pos())
 	for _, n := range []struct {
@@ -865,4 +899,51 @@ func balanceLegs(cx *CheckCtx) {
 		amt: fnParam(tb, tfn, 4), details: fnParam(tb, tfn, 6)}
 	sortTransferEffects(tc)
 	checkTransferLegs(cx, tc, "balance.Token.transfer")
+	checkLoaders(cx, "contracts/balance")
+}
+
+// checkLoaders: every helper of the package that reads a stored value and
+// returns it (an account record, the supply) returns the decoded stored value
+// exactly when the read found something, and its zero value exactly when it
+// found nothing: the nil test and the two returns are not crossed.
+func checkLoaders(cx *CheckCtx, pkgRel string) {
+	w := cx.W
+	p := w.ByPath[modPrefix+pkgRel]
+	if p == nil {
+		return
+	}
+	n := 0
+	for _, f := range allFuncs(w.Prog.Package(p.Types)) {
+		if f.Parent() != nil || f.Blocks == nil || f.Signature.Results().Len() != 1 || directCallees(f)["storage.Get"] != 1 || len(f.Blocks) > 4 {
+			continue
+		}
+		if dc := directCallees(f); dc["storage.Put"]+dc["storage.Delete"] > 0 {
+			continue
+		}
+		a := cx.analyze(&Query{Name: "std", Root: f})
+		var rd *Term
+		for _, s := range a.Sites(func(s *Site) bool { return s.Callee == "storage.Get" && s.Ctx.parent == nil }) {
+			rd = s.Val
+		}
+		if rd == nil || len(a.Exits()) < 2 {
+			continue
+		}
+		n++
+		ok, detail := true, ""
+		for _, ex := range a.Exits() {
+			if len(ex.Results) != 1 {
+				continue
+			}
+			r := ex.Results[0]
+			fromStore := r.contains(func(x *Term) bool { return x == rd })
+			switch {
+			case fromStore && !a.holdsAt(ex.State, -a.litNil(rd)):
+				ok, detail = false, "returns the decoded read without having found it present"
+			case !fromStore && !a.holdsAt(ex.State, a.litNil(rd)):
+				ok, detail = false, "returns a default ("+r.pretty()+") although the read found a stored value"
+			}
+		}
+		cx.decide(ok, "loader", fq(f), "stored value when present, default exactly when absent", fq(f)+" "+detail+": every balance / supply computed from it is wrong", w.pos(f.Pos()))
+	}
+	cx.count("loaders", n)
 }
